@@ -361,6 +361,15 @@ func independentConcurrent(t *testing.T, indepTest string) {
 					}
 					t.Fatalf("worker %d: [%s] proof verifies under a relabelled position (index=%d,total=%d) kinds=%v", wi, idRelabel, q.proof.Index, q.proof.Total, q.kinds)
 				}
+				if emptyRootSignature(q) {
+					lib.Class(indepTest, "FINDING:empty-root-accepted")
+					if lib.IsKnown(idEmptyRoot) {
+						lib.ObservedKnown(idEmptyRoot)
+						lib.ExcludedByKnown(idEmptyRoot)
+						continue
+					}
+					t.Fatalf("worker %d: [%s] impossible path (index=%d,total=%d, %d aunts) verifies against an empty root; kinds=%v", wi, idEmptyRoot, q.proof.Index, q.proof.Total, len(q.proof.Aunts), q.kinds)
+				}
 				t.Fatalf("worker %d: a (item,index,total,path) combination that is not genuine verified in %d of %d concurrent evaluations: index=%d total=%d item=%d bytes kinds=%v%s",
 					wi, w.qAccept[qi], w.reps, q.proof.Index, q.proof.Total, len(q.item), q.kinds, describe())
 			}
